@@ -1384,6 +1384,23 @@ impl Driver for TextDriver {
                         }
                     }
                 }
+                // second pass: the owned views (`line_bufs()`), which have their own comment / directive
+                // / record conversions
+                let (src2, _) = open_bufread(data, d);
+                let mut r2 = gff::io::Reader::new(src2);
+                for lb in r2.line_bufs() {
+                    match lb {
+                        Ok(lb) => {
+                            if !tx.push(Ev::Record(format!("LB:{lb:?}"))) {
+                                break;
+                            }
+                        }
+                        Err(e) => {
+                            tx.push(err_ev("line-buf", &e));
+                            break;
+                        }
+                    }
+                }
             }
             TextKind::Gtf => {
                 let mut r = gtf::io::Reader::new(src);
